@@ -366,6 +366,9 @@ def rate_limit(tokeniser: 'Tokeniser') -> ExtendedCommunities:
         unit = 'bytes'
 
     if unit == 'packets':
+        # an IEEE-754 single holds up to about 3.4e38: a larger number raised OverflowError when it was packed
+        if speed < 0 or speed > 3.4e38:
+            raise ValueError(f'a rate of {speed} packets per second can not be encoded (RFC 8955 7.2: a 4-octet float)')
         return ExtendedCommunities().add(TrafficRatePackets.make_traffic_rate_packets(ASN(0), speed))
 
     if speed < MIN_RATE_LIMIT_BPS and speed != 0:
